@@ -47,7 +47,7 @@ def subharnesses(tier):
         ['one', 'two', 'nest', 'nest+']
     Ds = [1] if tier == 'quick' else [1, 2]
     for D in Ds:
-        for sh in shapes:
+        for sh in (shapes if D == 1 else shapes[:2]):
             for asg in ASSIGN[sh]:
                 for res in RES[sh]:
                     for mu in MU[sh]:
